@@ -146,7 +146,7 @@ def count_sweeps(rs, fn, blk_id):
 def run(ck):
   from pymtl3.dsl.errors import UpblkCyclicError
   rng = ck.rng
-  n = 30 if ck.tier == 'quick' else 8000
+  n = 250 if ck.tier == 'quick' else 8000
   lines, meta = [], []
   for _ in range(n):
     kind = rng.choice(['false', 'false', 'conv', 'ring', 'ring', 'div', 'divcond'])
